@@ -16,7 +16,7 @@ for _i in range(1, 21):
     NOT_APPLICABLE["C%02d" % _i] = "check under construction in this round: not claimed until its harness is committed"
 
 # "fix:" commits made to /repo (genuine defects found by these checks)
-FIX_COMMITS = ["02941db (C15 processTransaction re-entrancy with transactions off)", "e107f1d (C15 queued endpoint change to an obstacle deleted in the same transaction)", "077756f (C15 pin constructor ordering)", "2226871 (C15 nested processTransaction from pin destructor)", "5170889 (C15 ~Router pending additions)", "d269b3c (C15 HyperedgeImprover leak)", "24c34d5 (C19 peel on edgeless graph)", "7efd154 (C15 ConnRef ctor with transactions off)", "b7b870c (C02 static Solver split with scales)", "055d977 (C17 floyd_warshall)", "48d1978 (C15 ActionInfo::firstMove)", "c551cd9 (C06 calcRouteDist)",
+FIX_COMMITS = ["3828509 (C06 reroute estimate: rotated frame carried to the next edge)", "5c6fca1 (C06 reroute estimate: end points on opposite sides of an edge)", "02941db (C15 processTransaction re-entrancy with transactions off)", "e107f1d (C15 queued endpoint change to an obstacle deleted in the same transaction)", "077756f (C15 pin constructor ordering)", "2226871 (C15 nested processTransaction from pin destructor)", "5170889 (C15 ~Router pending additions)", "d269b3c (C15 HyperedgeImprover leak)", "24c34d5 (C19 peel on edgeless graph)", "7efd154 (C15 ConnRef ctor with transactions off)", "b7b870c (C02 static Solver split with scales)", "055d977 (C17 floyd_warshall)", "48d1978 (C15 ActionInfo::firstMove)", "c551cd9 (C06 calcRouteDist)",
                "30473cc (C20 CmpNodePos)", "9f592b9 (C02 IncSolver::solve)"]
 HOOK_COMMITS = []
 
@@ -103,7 +103,7 @@ CHECKS["C02"] = dict(
 )
 
 CHECKS["C09"] = dict(
-    stages=[stage("C09", quick=dict(cases=24000, size=100, shards=12), thorough=dict(cases=1200000, size=100, shards=16), case_timeout=300)],
+    stages=[stage("C09", quick=dict(cases=120000, size=100, shards=16), thorough=dict(cases=1200000, size=100, shards=16), case_timeout=300)],
     technique="rapidcheck property-based testing: generated rectangle sets against a pairwise-overlap validity predicate; "
               "constraint sets checked by topological sort and by sampling satisfying placements",
     level_text="Generated rectangle sets (random, identical copies, 1e-3-thin, lattice-aligned ties, nested, chains; "
@@ -121,7 +121,7 @@ CHECKS["C09"] = dict(
 )
 
 CHECKS["C03"] = dict(
-    stages=[stage("C03", harness="ROUTE", props=["C03."], quick=dict(cases=4000, size=100, shards=12), thorough=dict(cases=300000, size=100, shards=16), case_timeout=600)],
+    stages=[stage("C03", harness="ROUTE", props=["C03."], quick=dict(cases=40000, size=100, shards=16), thorough=dict(cases=800000, size=100, shards=16), case_timeout=600)],
     technique="rapidcheck property-based testing: generated lattice scenes routed by libavoid, judged by an independent exact "
               "segment-versus-convex-interior predicate, with a clearance-based path-existence oracle as the guard",
     level_text="Generated scenes of interior-disjoint lattice rectangles and convex polygons (30% 'tight': butted and edge-aligned), "
@@ -138,7 +138,7 @@ CHECKS["C03"] = dict(
 )
 
 CHECKS["C04"] = dict(
-    stages=[stage("C04", harness="ROUTE", props=["C04."], quick=dict(cases=3000, size=100, shards=12), thorough=dict(cases=200000, size=100, shards=16), case_timeout=600)],
+    stages=[stage("C04", harness="ROUTE", props=["C04."], quick=dict(cases=30000, size=100, shards=16), thorough=dict(cases=600000, size=100, shards=16), case_timeout=600)],
     technique="rapidcheck property-based testing against an independent visibility-graph Dijkstra reference model (with bend states for the penalised variant)",
     level_text="Generated scenes of separated (gap >= 1) lattice rectangles and convex polygons, polyline routing, all penalties 0: "
                "route length must equal the harness's own visibility-graph shortest path to 1e-6.  With segmentPenalty in {1,5,50}: "
@@ -151,7 +151,7 @@ CHECKS["C04"] = dict(
 )
 
 CHECKS["C05"] = dict(
-    stages=[stage("C05", harness="ROUTE", props=["C05."], quick=dict(cases=8000, size=100, shards=12), thorough=dict(cases=300000, size=100, shards=16), case_timeout=600)],
+    stages=[stage("C05", harness="ROUTE", props=["C05."], quick=dict(cases=60000, size=100, shards=16), thorough=dict(cases=800000, size=100, shards=16), case_timeout=600)],
     technique="rapidcheck property-based testing against an independent Hanan-grid Dijkstra over (node, heading); exhaustive table check of the bend estimator against a 0-1 BFS",
     level_text="Generated scenes of separated lattice rectangles, orthogonal connectors with free endpoints and random ConnDirFlags, six "
                "segment penalties, optional shape buffer: every segment of route() and displayRoute() is exactly axis-parallel and "
@@ -165,7 +165,7 @@ CHECKS["C05"] = dict(
 )
 
 CHECKS["C06"] = dict(
-    stages=[stage("C06", quick=dict(cases=2400, size=100, shards=12), thorough=dict(cases=80000, size=100, shards=16), case_timeout=600)],
+    stages=[stage("C06", quick=dict(cases=24000, size=100, shards=16), thorough=dict(cases=400000, size=100, shards=16), case_timeout=600)],
     technique="rapidcheck model-based testing of API histories: a scene model is driven alongside the router and, at every transaction "
               "boundary, compared differentially with a freshly constructed router on the model's scene",
     level_text="Generated histories (2-14 operations after the first routing: add shape, moveShape absolute/relative incl. resize, "
@@ -183,7 +183,7 @@ CHECKS["C06"] = dict(
 )
 
 CHECKS["C10"] = dict(
-    stages=[stage("C10", quick=dict(cases=3000, size=100, shards=12), thorough=dict(cases=200000, size=100, shards=16), case_timeout=600)],
+    stages=[stage("C10", quick=dict(cases=30000, size=100, shards=16), thorough=dict(cases=600000, size=100, shards=16), case_timeout=600)],
     technique="rapidcheck property-based testing: generated corridor scenes, validity predicates over raw versus nudged routes "
               "(endpoints, segment count, checkpoints, collinear-overlap detection with an independently measured channel width)",
     level_text="Generated orthogonal scenes built to make routes share corridors (a wall of 2-5 blocks with gaps of width 3-40, 2-8 "
@@ -222,7 +222,7 @@ CHECKS["C18"] = dict(
 )
 
 CHECKS["C14"] = dict(
-    stages=[stage("C14", quick=dict(cases=240, size=100, shards=12, timeout=1500), thorough=dict(cases=15000, size=100, shards=16), case_timeout=900)],
+    stages=[stage("C14", quick=dict(cases=480, size=100, shards=16, timeout=1500), thorough=dict(cases=15000, size=100, shards=16), case_timeout=900)],
     technique="rapidcheck property-based testing: generated connected graphs through doHOLA, validity predicates over the returned drawing",
     level_text="Generated connected simple graphs (trees, cycles, tree+chords, dense core with hanging trees, hubs; 2-30 nodes quick, "
                "2-60 thorough; node sizes 10-100; random and coincident initial positions) built through TGLF or through the Graph API, with "
@@ -238,7 +238,7 @@ CHECKS["C14"] = dict(
 )
 
 CHECKS["C19"] = dict(
-    stages=[stage("C19", quick=dict(cases=4000, size=100, shards=12), thorough=dict(cases=300000, size=100, shards=16), case_timeout=600)],
+    stages=[stage("C19", quick=dict(cases=40000, size=100, shards=16), thorough=dict(cases=800000, size=100, shards=16), case_timeout=600)],
     technique="rapidcheck property-based testing with partition / union-find / reachability validity predicates over the decompositions",
     level_text="Generated simple graphs (random, trees, cycles with chords, cores with hanging trees, caterpillars that peel away completely; "
                "up to 60 nodes, 80 thorough).  peel(): every node is in the core or in exactly one tree as a non-root, tree roots are core "
@@ -257,7 +257,7 @@ CHECKS["C19"] = dict(
 )
 
 CHECKS["C11"] = dict(
-    stages=[stage("C11", quick=dict(cases=3000, size=100, shards=12), thorough=dict(cases=200000, size=100, shards=16), case_timeout=600)],
+    stages=[stage("C11", quick=dict(cases=30000, size=100, shards=16), thorough=dict(cases=600000, size=100, shards=16), case_timeout=600)],
     technique="rapidcheck property-based testing of short API histories (build, optionally move before the first transaction, route, "
               "move/resize shapes or junctions, re-route) with validity predicates and an independent recomputation of pin positions",
     level_text="Generated scenes of 1-5 well-separated rectangles with 1-5 distinct pins per pinned shape (proportional / absolute offsets, "
@@ -276,7 +276,7 @@ CHECKS["C11"] = dict(
 )
 
 CHECKS["C12"] = dict(
-    stages=[stage("C12", quick=dict(cases=2400, size=100, shards=12), thorough=dict(cases=120000, size=100, shards=16), case_timeout=600)],
+    stages=[stage("C12", quick=dict(cases=7200, size=100, shards=16), thorough=dict(cases=120000, size=100, shards=16), case_timeout=600)],
     technique="rapidcheck property-based testing of hyperedge scenes and follow-up transactions with graph-theoretic validity predicates "
               "(union-find tree test, leaf set, attachment and list consistency) over the router's live objects",
     level_text="Generated orthogonal scenes of 3-10 separated rectangles, the first 3-8 of them terminals with a centre pin, an initial "
@@ -294,7 +294,7 @@ CHECKS["C12"] = dict(
 )
 
 CHECKS["C07"] = dict(
-    stages=[stage("C07", harness="COLA", props=["C07."], quick=dict(cases=2400, size=100, shards=12), thorough=dict(cases=150000, size=100, shards=16), case_timeout=600)],
+    stages=[stage("C07", harness="COLA", props=["C07."], quick=dict(cases=2400, size=100, shards=16), thorough=dict(cases=150000, size=100, shards=16), case_timeout=600)],
     technique="rapidcheck property-based testing: generated graphs and constraint mixes through ConstrainedFDLayout, judged by an independent "
               "evaluator of each compound constraint's meaning on the final rectangle centres",
     level_text="Generated graphs (1-12 nodes quick, 30 thorough; edgeless, disconnected, piles of coincident nodes) with 1-7 compound constraints: "
@@ -311,7 +311,7 @@ CHECKS["C07"] = dict(
 )
 
 CHECKS["C08"] = dict(
-    stages=[stage("C08", harness="COLA", props=["C08."], quick=dict(cases=12000, size=100, shards=12), thorough=dict(cases=100000, size=100, shards=16), case_timeout=600)],
+    stages=[stage("C08", harness="COLA", props=["C08."], quick=dict(cases=36000, size=100, shards=16), thorough=dict(cases=600000, size=100, shards=16), case_timeout=600)],
     technique="rapidcheck property-based testing: heavily overlapping generated layouts through makeFeasible()+run() with overlap avoidance, "
               "judged by pairwise rectangle overlap and cluster member-bounding-box predicates",
     level_text="Generated graphs (1-10 nodes quick, 24 thorough) with piles of coincident / nearly coincident nodes, optional exemption groups, "
@@ -326,7 +326,7 @@ CHECKS["C08"] = dict(
 )
 
 CHECKS["C13"] = dict(
-    stages=[stage("C13", quick=dict(cases=4800, size=100, shards=12), thorough=dict(cases=30000, size=100, shards=16), case_timeout=900)],
+    stages=[stage("C13", quick=dict(cases=14400, size=100, shards=16), thorough=dict(cases=300000, size=100, shards=16), case_timeout=900)],
     technique="rapidcheck property-based testing: generated node sets routed by libavoid, laid out by ConstrainedFDLayout + ColaTopologyAddon and "
               "stopped after a generated number of iterations; independent segment/rectangle and corner predicates on the result",
     level_text="Generated sets of 2-12 (thorough 20) non-overlapping node rectangles (gap 5/10/20, on and off a 10-lattice), random simple edges, "
